@@ -60,6 +60,47 @@ def partBytes : Option Part → Bytes
 def assemble (ps : PartSet) : Bytes :=
   (ps.parts.map partBytes).flatten
 
+
+/-! `PartSet.HasHeader` / `HashesTo`: how consensus decides whether the part set it holds is the one
+a block id commits to (`Header().Equals(header)`: part count AND root; a nil set has no header). -/
+def hashesTo (ps : Option PartSet) (hash : Bytes) : Bool :=
+  match ps with
+  | none => false
+  | some s => s.hash == hash
+
+def hasHeader (ps : Option PartSet) (total : Nat) (hash : Bytes) : Bool :=
+  match ps with
+  | none => false
+  | some s => s.total == total && s.hash == hash
+
+/-! `PartSetReader`: `cur` is the unread remainder of the current part's `bytes.Reader`, `rest` the
+parts after it. `rd rest cur n` is `Read(p)` with `len(p) = n`: the bytes delivered, the new
+`cur`/`rest`, and whether `io.EOF` was returned. Statement by statement: enough in the current part
+-> read from it (an exhausted `bytes.Reader` answers EOF even to an empty `p`); some left -> take
+it and read the remainder of `p` from the following parts; nothing left -> next part, or EOF. -/
+def rd : List Bytes → Bytes → Nat → Bytes × Bytes × List Bytes × Bool
+  | rest, cur, n =>
+    if cur.length ≥ n then
+      (if cur = [] then ([], [], rest, true) else (cur.take n, cur.drop n, rest, false))
+    else match rest with
+      | [] => (cur, [], [], true)
+      | c :: rest' =>
+        let r := rd rest' c (n - cur.length)
+        (cur ++ r.1, r.2.1, r.2.2.1, r.2.2.2)
+
+/-- `Read` called with buffers of the given sizes, one after the other: the chunks delivered with
+their EOF flags. `GetReader` starts at part 0. -/
+def rdSeq : List Nat → Bytes → List Bytes → List (Bytes × Bool)
+  | [], _, _ => []
+  | n :: ns, cur, rest =>
+    let r := rd rest cur n
+    (r.1, r.2.2.2) :: rdSeq ns r.2.1 r.2.2.1
+
+def readerOf (ps : PartSet) : Bytes × List Bytes :=
+  match ps.parts.map partBytes with
+  | [] => ([], [])
+  | c :: rest => (c, rest)
+
 /-! `Part.ValidateBasic` / `Proof.ValidateBasic`: what the reactor checks on a part decoded from the
 wire (`PartFromProto`) before it reaches `AddPart`. Constants come from the regenerated facts. -/
 def hashSize : Nat := 32                                   -- tmhash.Size
